@@ -219,8 +219,7 @@ def run(ctx):
                None if ok else render_path(p.events))
     ctx.require("R08.answer", na, 4, "close paths that pass validation")
     for f in e3.may_raise():
-        stack = f.event["stack"]
-        if any(s.endswith("." + h) for s in stack):
+        if any(any(s.endswith("." + h) for s in x["stack"]) for x in e3.occurrences(f)):
             ctx.ob("R08.answer", "may-raise %s at %s" % (f.may_raise, f.construct), False,
                    f.site, f.detail + "; the exception escapes the close handler, so no "
                    "`closed` is sent", render_path(f.path.events) if f.path else None)
